@@ -18,16 +18,18 @@ RULE = ('every (Fs_in, Fs_out, forEnc) of a 19 x 19 x 2 rate grid for silk_resam
         'distinct by (op, kernel selected)')
 NOT_COVERED = ['the 2:1 / 3:2 all-pass down-samplers silk_resampler_down2 / down2_3 (used by the encoder VAD / pitch analysis, not by '
                'silk_resampler) are not part of this slice',
-               'chunk invariance is proved for the copy and up2_HQ kernels only (chunk_invariance_fold_kernels_partial, any cut); '
-               'for the batch kernels IIR_FIR / down_FIR (cut at a whole millisecond) it is tested on the implementation by the '
-               'search, not proved',
-               'that silk_ADD32 / silk_SUB32 / silk_SMLAWB inside the all-pass sections and the AR2 recursion never overflow (signed '
-               'overflow = UB in C) is not proved — they act on filter states; the model reduces them mod 2^32 (what the compiled '
-               'code computes) and the tie runs under UBSan.  Proved exact: the SMLABB sum of IIR_FIR_INTERPOL',
+               'chunk invariance is proved at whole-millisecond cuts for all kernels (chunk_invariance) and at any cut for the '
+               'copy / up2_HQ kernels (chunk_invariance_fold_kernels_partial); at non-millisecond cuts the batch kernels are '
+               'not chunk invariant by design (the interpolation index restarts at every call)',
+               'signed overflow (UB in C) is excluded by proof for the SMLABB sum of IIR_FIR_INTERPOL and for five of the six all-pass '
+               'sections of up2_HQ; for the sixth section and the AR2 recursion the model reduces mod 2^32 (what the compiled code '
+               'computes) and the tie runs under UBSan',
                'the callers (dec_API.c / enc_API.c: buffer sizes handed to silk_resampler, when init is called) belong to slice SilkApi',
                'x86 / ARM SIMD variants: the resampler has none in this tree (plain C in every build)']
-UNPROVED = ['chunk invariance of silk_resampler for the IIR_FIR and down_FIR kernels at whole-millisecond cuts (tested by the search)',
-            'absence of signed overflow in the all-pass (up2_HQ) and AR2 recursions for all input histories']
+UNPROVED = ['absence of signed overflow in the third all-pass section of the odd phase of up2_HQ (coefficient -9994: the per-section '
+            'magnitude invariant gives 2154e6 > 2^31, needs the l1 gain of the cascade) and in the AR2 recursion of down_FIR '
+            '(|a0| + |a1| > 1: needs the l1 gain), for all int16 histories; the other five all-pass sections are proved '
+            '(up2hq_sections_no_overflow_partial)']
 ASSUMPTIONS = ['out[] has room for the number of samples stated by resampler_total, in[] holds inLen samples (the harness uses '
                'exact-size heap blocks under ASan)',
                'the state was produced by silk_resampler_init and only changed by silk_resampler (invariant Inv)']
@@ -37,7 +39,8 @@ LEVEL_TEXT = ('bit-exact executable Lean model of silk_resampler_init / silk_res
               'out-of-bounds index, no assertion), preserves invariant and configuration, writes a sample count given in closed form '
               '(ms * Fs_out_kHz for whole milliseconds), all samples int16, all state words representable, by induction over every '
               'call history; the IIR_FIR interpolation sum is exact (no 32-bit wrap); the delay line (kernels see the input delayed by '
-              'inputDelay samples, streams of consecutive calls concatenate); chunk invariance for the copy / up2_HQ kernels; '
+              'inputDelay samples, streams of consecutive calls concatenate); chunk invariance at whole-millisecond cuts for all four kernels '
+              '(partition independence of the batch loops + complete index enumeration per configuration); '
               'tied by exact comparison of outputs and complete post-state over call histories under ASan/UBSan')
 LEVEL_NOTE = ('trusted: Lean kernel; the harness and line protocol; the reading of the C macros (OPUS_FAST_INT64 variants) into '
               'wrap32-reducing helpers; the union sFIR modelled through the view the selected kernel uses')
@@ -50,7 +53,8 @@ REQUIRED_THEOREMS = ['OpusProps.C03SilkResamp.init_accepts_iff', 'OpusProps.C03S
                      'OpusProps.C03SilkResamp.iir_fir_interpolation_exact',
                      'OpusProps.C03SilkResamp.chunk_invariance_fold_kernels_partial',
                      'OpusProps.C03SilkResamp.state_words_representable', 'OpusProps.C03SilkResamp.call_keeps_words_representable',
-                     'OpusProps.C03SilkResamp.delay_line']
+                     'OpusProps.C03SilkResamp.delay_line', 'OpusProps.C03SilkResamp.chunk_invariance',
+                     'OpusProps.C03SilkResamp.up2hq_sections_no_overflow_partial']
 
 
 def _wait_driver(secs=120):
